@@ -27,10 +27,18 @@ theorem nullConnsList_core (s : St) (cs : List Nat) :
     obtain ⟨a, b, c', d, e⟩ := ih (nullConns s c)
     exact ⟨by rw [a]; rfl, by rw [b]; rfl, by rw [c']; rfl, by rw [d]; rfl, by rw [e]; rfl⟩
 
+@[simp] theorem nullConns_ownedG (s : St) (c : Nat) : (nullConns s c).ownedG = s.ownedG := rfl
+
+@[simp] theorem nullConnsList_ownedG (s : St) (cs : List Nat) : (nullConnsList s cs).ownedG = s.ownedG := by
+  unfold nullConnsList
+  induction cs generalizing s with
+  | nil => rfl
+  | cons c t ih => simp only [List.foldl_cons]; rw [ih]; rfl
+
 theorem Good.nullConnsList {off} {s s1 : St} (h : Good off s s1) (cs : List Nat) :
     Good off s (nullConnsList s1 cs) := by
   obtain ⟨a, b, c, d, e⟩ := nullConnsList_core s1 cs
-  exact h.congr a b c d (by omega)
+  exact h.congr a b c d (by omega) (nullConnsList_ownedG _ _)
 
 theorem Good.nullConns {off} {s s1 : St} (h : Good off s s1) (c : Nat) :
     Good off s (nullConns s1 c) :=
